@@ -21,7 +21,9 @@ RULE = ('chains of 1-6 requests through a real SignedCookieSessionFactory, each 
         'cookie or an edit of it (so persistence or rejection was really exercised); distinct by full case')
 ASSUMPTIONS = [
     'stored values are JSON data (null, bool, int, str, list, str-keyed dict): tuples and non-string keys do not survive JSON',
-    'the clock returns integer-valued floats (fractional clocks within one second of a boundary are not modelled)',
+    'time.time() is a float on a grid of 0.25 s (exactly representable, so every float operation of the code is exact); '
+    'int() truncations are modelled; time stamps are whole seconds (int()), so timeout/reissue are measured from the stamp in '
+    'the cookie and a boundary can be crossed up to <1 s early relative to the real clock (specification boundary, as for C09)',
     'a bare session.changed() re-issues the cookie with the OLD renewal time (it does not touch accessed); timeout is '
     'measured from the time stamp in the cookie',
     'hmac, json and base64 are abstract functions in the theorems; the premises deser(ser p)=Some p, unb64(b64 x)=Some x and '
@@ -64,6 +66,16 @@ def facts(src):
 
 
 _F = {'cookie_limit': 4064, 'urandom_n': 20}
+TICK = 4                   # clock grid of the model: 0.25 s (coq/Model/C10.v tick)
+
+
+def ticks(t):
+    q = t * TICK
+    if q != int(q):
+        raise ValueError('clock value %r is not on the 1/%d s grid' % (t, TICK))
+    return int(q)
+
+
 SPEC_LIMIT = 4064        # the property's cookie size limit (coq/Model/C10.v spec_limit)
 
 # ------------------------------------------------------------------ JSON values <-> tagged form
@@ -81,9 +93,9 @@ def tj(v):
             raise Unmodelled('big int')
         return [2, v]
     if isinstance(v, float):
-        if v != v or v in (float('inf'), float('-inf')) or v != int(v) or abs(v) >= 2 ** 53:
+        if v != v or v in (float('inf'), float('-inf')) or abs(v) >= 10 ** 15 or v * TICK != int(v * TICK):
             raise Unmodelled('float')
-        return [3, int(v)]
+        return [3, int(v * TICK)]          # floats travel as ticks of 1/TICK s
     if isinstance(v, str):
         return [4, v]
     if isinstance(v, (list, tuple)):
@@ -106,7 +118,7 @@ def tnum(v):
 
 OPS = ['get', 'getitem', 'items', 'values', 'keys', 'contains', 'len', 'iter', 'clear', 'update', 'setdefault', 'pop',
        'popitem', 'setitem', 'delitem', 'flash', 'pop_flash', 'peek_flash', 'new_csrf_token', 'get_csrf_token',
-       'changed', 'invalidate']
+       'changed', 'invalidate', 'ior']
 OPCODE = {n: i for i, n in enumerate(OPS)}
 
 
@@ -117,7 +129,7 @@ def op_wire(o):
         return [c, o['k'], tj(o.get('v'))]
     if n in ('getitem', 'contains', 'delitem'):
         return [c, o['k']]
-    if n == 'update':
+    if n in ('update', 'ior'):
         return [c, tj(o['v'])]
     if n == 'pop':
         return [c, o['k'], [tj(o['v'])] if 'v' in o else []]
@@ -281,6 +293,10 @@ def _do_op(sess, o):
         return sess.changed()
     if n == 'invalidate':
         return sess.invalidate()
+    if n == 'ior':
+        import operator
+        operator.ior(sess, json.loads(json.dumps(o['v'])))      # session |= {...}
+        return None
     raise ValueError(n)
 
 
@@ -538,7 +554,7 @@ def to_wire(case):
             s = []
         else:
             s = [text]
-        reqs.append([s, r['t'], [[op_wire(op), op['t']] for op in r['ops']], 1 if r.get('exc') else 0])
+        reqs.append([s, ticks(r['t']), [[op_wire(op), ticks(op['t'])] for op in r['ops']], 1 if r.get('exc') else 0])
         if ob[0] == 0 and ob[4][0] == 1:
             last = ob[4][1]
             history.append(last)
@@ -608,6 +624,20 @@ def spec_holds(case, obs, spec):
 
 
 def classify(case, obs, spec):
+    """C10-ior-unwrapped: the deviation disappears when every `session |= m` is written `session.update(m)`
+    (same data effect, same specification), i.e. it is exactly the missing wrapper of dict.__ior__."""
+    if not any(op['op'] == 'ior' for r in case['reqs'] for op in r['ops']):
+        return None
+    c2 = json.loads(json.dumps(case))
+    for r in c2['reqs']:
+        for op in r['ops']:
+            if op['op'] == 'ior':
+                op['op'] = 'update'
+    try:
+        if spec_holds(c2, run_impl(c2), spec) is True:
+            return 'C10-ior-unwrapped'
+    except Exception:
+        pass
     return None
 
 
@@ -629,6 +659,8 @@ def kinds(case, obs):
     out.add('reissue-%s' % ('default' if o.get('defaults') else 'none' if o.get('reissue', 0) is None else
                             'zero' if o.get('reissue', 0) == 0 else 'set'))
     out.add('len%d' % len(case['reqs']))
+    out.add('clock-fractional' if any(r['t'] != int(r['t']) or any(op['t'] != int(op['t']) for op in r['ops'])
+                                      for r in case['reqs']) else 'clock-whole-seconds')
     out.add('via-router' if case.get('router') else 'via-factory')
     prev = None
     for r, ob in zip(case['reqs'], obs[0]):
@@ -647,13 +679,14 @@ def kinds(case, obs):
             to = 1200 if o.get('defaults') else to
             if to is not None:
                 d = r['t'] - prev
-                out.add('age-at-timeout' if d == to else 'age-timeout+1' if d == to + 1 else
+                out.add('age-fractional' if d != int(d) else 'age-whole')
+                out.add('age-at-timeout' if d == to else 'age-timeout+1tick' if d == to + 1.0 / TICK else
                         'age-past-timeout' if d > to else 'age-within-timeout')
         out.add('fin-%s' % {0: 'none', 1: 'cookie', 2: 'oversize'}.get(f[0], 'other'))
         if f[0] == 1:
             out.add('cookie-len-%s' % ('at-limit' if len(f[1]) == SPEC_LIMIT else
                                        'near-limit' if len(f[1]) > SPEC_LIMIT - 8 else 'small'))
-            prev = s1[2][1]
+            prev = s1[2][1] if s1[2][0] == 2 else s1[2][1] / float(TICK)
         if f[0] == 0 and s1[5]:
             out.add('dirty-but-suppressed-by-exception')
         if r.get('exc'):
